@@ -20,9 +20,10 @@ out = ["# Independently seeded property-breaking changes\n",
 "(`tools/with_patch seeded/<id>/patch.diff ./check <Cnn> quick`), the check run, and /repo reverted. `after-strengthening`",
 "means the check as it stood missed the change; the note says what the check lacked and what was added (the check was then",
 "run again on the clean tree: no alarm, and on the change: reported).\n",
-"Totals: %d changes; %d reported by the check as it stood, %d only after strengthening, 0 still missed. Per round: %s.\n" % (
-    len(rows), sum(1 for r in rows if r[3] == 'yes'), sum(1 for r in rows if r[3] != 'yes'),
-    ", ".join("round %s: %d/%d as it stood" % (k, v[0], v[0] + v[1]) for k, v in sorted(rounds.items()))),
+"Totals: %d changes; %d reported by the check as it stood, %d only after strengthening, %d not reported (%s). Per round: %s.\n" % (
+    len(rows), sum(1 for r in rows if r[3] == 'yes'), sum(1 for r in rows if r[3] == 'after-strengthening'),
+    sum(1 for r in rows if r[3] == 'no'), ", ".join(r[0] for r in rows if r[3] == 'no') or "none",
+    ", ".join("round %s: %d/%d as it stood" % (k, v[0], v[0] + v[1]) for k, v in sorted(rounds.items(), key=lambda kv: int(kv[0])))),
 "| seed | change | caught | how |", "|---|---|---|---|"]
 for r in rows:
     out.append(("| %s | %s **Needs:** %s | %s | %s |" % r).replace("\n", " "))
